@@ -7,7 +7,8 @@ W = 64          # width of bit-vector backed integers
 
 __all__ = ["SymBool", "SymInt", "SymReal", "SymBytes", "SymByteArray",
            "evaluate", "is_sym", "const", "W", "ite", "smin", "smax",
-           "sand", "sor", "snot", "simplies", "as_bool_expr"]
+           "sand", "sor", "snot", "simplies", "as_bool_expr", "same_truth",
+           "SymMemoryView"]
 
 
 def _eng():
@@ -534,22 +535,34 @@ def const(v, bv=True):
 
 
 def ite(c, a, b):
-    """Non-forking conditional on integers."""
-    ce = as_bool_expr(c)
-    if isinstance(a, SymInt) or isinstance(b, SymInt):
-        sa = a if isinstance(a, SymInt) else None
-        sb = b if isinstance(b, SymInt) else None
-        ref = sa or sb
-        x, y, _ = ref._coerce(b if ref is sa else a)
-        if ref is sb:
-            x, y = y, x
-        return SymInt(z3.If(ce, x, y))
-    ce = z3.simplify(ce)
+    """Non-forking conditional on integers or booleans."""
+    if not isinstance(c, (SymBool, SymInt, z3.ExprRef)):
+        return a if c else b
+    ce = z3.simplify(as_bool_expr(c))
     if z3.is_true(ce):
         return a
     if z3.is_false(ce):
         return b
-    return SymInt(z3.If(ce, z3.IntVal(a), z3.IntVal(b)))
+    if (isinstance(a, (SymBool, bool)) and isinstance(b, (SymBool, bool))):
+        return SymBool(z3.If(ce, as_bool_expr(a), as_bool_expr(b)))
+    ref = a if isinstance(a, SymInt) else (
+        b if isinstance(b, SymInt) else SymInt(z3.IntVal(0)))
+    _, ea, bva = ref._coerce(a)
+    _, eb, bvb = ref._coerce(b)
+    if bva != bvb:
+        if bva:
+            eb = z3.Int2BV(eb, W)
+        else:
+            ea = z3.Int2BV(ea, W)
+    return SymInt(z3.If(ce, ea, eb))
+
+
+def same_truth(c, flag):
+    """`c` (symbolic or plain) has the truth value of the plain bool
+    `flag`."""
+    if isinstance(c, (SymBool, SymInt, z3.ExprRef)):
+        return SymBool(as_bool_expr(c)) if flag else snot(c)
+    return bool(c) == bool(flag)
 
 
 def smin(a, b):
